@@ -21,7 +21,7 @@ TRUSTED = [
     'inverse / factor workers are obtained by constructing a public GPTNeoXAssignment with the same arguments (its correctness is C12)',
     'factors held by a rank are read through the public KFACBaseLayer.state_dict() of the layer objects found by a reflective walk',
 ]
-THEOREMS = ['gathered_state_complete', 'gathered_state_sound', 'dir_one_file_per_layer', 'load_restores_on_factor_workers', 'recompute_on_factor_workers']
+THEOREMS = ['gathered_state_complete', 'gathered_state_sound', 'dir_one_file_per_layer', 'load_restores_on_factor_workers', 'recompute_on_factor_workers', 'neox_resume_restores_m1']
 NOTES = ('Resume equivalence is claimed for model-parallel degree 1; for M > 1 the replicated factor is not restored on ranks that are not '
          'factor workers (known finding D7, Example neox_resume_refuted).')
 
